@@ -157,7 +157,11 @@ func runRefill(ch *chain, restrict *refillCase, report func(sig, what string, re
 				vo, vf := runValidate(obj), runValidate(fresh)
 				outcomes["fresh:"+vf.class]++
 				if vo.ok != vf.ok {
-					report("C16/reencode/refill/verdict-differs-from-fresh-decode",
+					sig := "C16/reencode/refill/verdict-differs-from-fresh-decode"
+					if vo.ok {
+						sig = "C16/reencode/refill/accepts-what-fresh-decode-rejects"
+					}
+					report(sig,
 						fmt.Sprintf("%s: Validate() of the re-filled object: %s (%s); of the same encoding decoded into a fresh object: %s (%s)", name, vo.class, vo.err, vf.class, vf.err), art)
 				}
 				ho, _ := safeHash(obj)
